@@ -28,6 +28,38 @@ def check(ctx):
         for tag, alpha, ml in (('dec', b'+-0123456789', 4 if not thorough else 5), ('bin', b'01bB', 11 if not thorough else 12), ('hexoct', b'0137fFxX', 6 if not thorough else 7)):
             ctx.native_enum('parse-integer-%s-%s' % (t, tag), dict(module='chardata', check='int_%s' % t, alphabet=alpha, maxlen=ml),
                             'parse_integer::<%s> on every text over the alphabet that is in the INTEGER lexical form' % t)
+    # boundary texts: 2^k-1, 2^k, 2^k+1 (k = 0..66) and powers of ten in every radix / prefix / sign spelling
+    texts = set()
+    vals = set()
+    for k in range(0, 67):
+        vals.update((2 ** k - 1, 2 ** k, 2 ** k + 1, 2 ** k + 2 ** (k // 2)))
+    for k in range(0, 21):
+        vals.update((10 ** k, 10 ** k - 1))
+    for v in sorted(vals):
+        if v < 0:
+            continue
+        texts.update(('%d' % v, '+%d' % v, '-%d' % v, '0x%x' % v, '0X%X' % v, '0x%X' % v, '0b' + bin(v)[2:], '0B' + bin(v)[2:], '0%o' % v, '00%o' % v))
+    import os
+    p = ctx.scratch.path('c20_boundaries.txt')
+    with open(p, 'w') as f:
+        f.write('\n'.join(x.encode().hex() for x in sorted(texts)) + '\n')
+    import json as _json
+    from vxlib.common import run as _run, Obligation as _Ob
+    b = ctx.native()
+    for chk in ['int_%s' % t for t in TYPES] + ['float_prefixed']:
+        rc, out, err, secs = _run([b, 'batch', 'chardata', chk, p], timeout=600)
+        lines = [_json.loads(x) for x in out.strip().splitlines() if x.startswith('{')]
+        name = 'native/boundaries-%s' % chk
+        bound = '%d boundary texts (2^k-1, 2^k, 2^k+1 for k <= 66, powers of ten; decimal with signs, 0x/0X, 0b/0B, leading-0 octal)' % len(texts)
+        if not lines or 'tried' not in lines[-1]:
+            ctx.undecided.append('%s: no result' % name)
+        elif lines[-1]['failed']:
+            s = bytes.fromhex(lines[0]['input'])
+            ob = ctx.add(_Ob(ctx.prop, name, 'native-eval', 'bounded', 'failed', seconds=secs, bound=bound, detail='%s on %r: %s' % (chk, s, lines[0]['message'])))
+            ob.witness = dict(input_hex=lines[0]['input'], input_text=s.decode(), observed=lines[0]['message'], via='boundary-value batch on the real function', replay=['one', 'chardata', chk, lines[0]['input']])
+            ctx._record_violation(ob)
+        else:
+            ctx.add(_Ob(ctx.prop, name, 'native-eval', 'bounded', 'discharged', seconds=secs, bound=bound, detail='%s: exact value iff it fits, for every boundary text in the lexical form' % chk))
     ctx.native_enum('parse-float-prefixed', dict(module='chardata', check='float_prefixed', alphabet=b'0127fxXbB.', maxlen=6), 'parse_float on prefixed forms')
     ctx.native_enum('parse-bool', dict(module='chardata', check='bool', alphabet=b'truefals01TF ', maxlen=5), 'parse_bool against the boolean lexical form')
     return ctx.finish(
